@@ -253,12 +253,12 @@ type TCfg struct {
 }
 
 type TPlan struct {
-	Name                                                string
+	Name                                                  string
 	MaxBlocks, MaxNum, MaxLeaves, MaxEntries, MaxPerBlock int
-	NTrig                                               int
-	ExpOffsets                                          []int
-	D, MaxR, Start0                                     int
-	MaxBeh                                              int
+	NTrig                                                 int
+	ExpOffsets                                            []int
+	D, MaxR, Start0                                       int
+	MaxBeh                                                int
 }
 
 // codeFetch names the variant of EventTrigger.tla that describes the current repository code:
